@@ -9,8 +9,10 @@ called right after a shift (no layout ahead, span ending at the position), only 
 that satisfies `P` (`NtP`).
 
 * default whitespace skipping: `P s = WsBytes (input slice s)` — whole whitespace characters only;
-* Layout rule: `P s = LayoutSentence env lsym s` — the slice is tiled by adjacent recognizer matches
-  whose kinds are the yield of a derivation tree of the Layout symbol.
+* Layout rule: `P s = LayoutSentences env lsym s.1 (s.1+s.2)` — the slice is a concatenation of one
+  or more `LaySentence`s: ranges tiled by adjacent recognizer matches whose kinds are the yield of a
+  derivation tree of the Layout symbol.  (One sentence per run of the layout parser; a second run
+  happens only when the lexer is re-run after a reduce, and its layout is merged: `mergeLay`.)
 -/
 namespace Rustemo
 
@@ -40,12 +42,18 @@ def NtP (P : Slice → Prop) (nt : Ctx → Ctx × Outcome Tok) : Prop :=
   ∀ ctx ctx' tk, ctx.lay = none → ctx.span.e.pos = ctx.pos.pos → nt ctx = (ctx', .ok tk) →
     ∀ s, ctx'.lay = some s → P s
 
+/-- re-lexing after a reduce from configuration `c`: the merged layout satisfies `P` -/
+def RelexP (P : Slice → Prop) (nt : Ctx → Ctx × Outcome Tok) (c : Cfg) : Prop :=
+  ∀ s' ctx1 tk, nt (reduceCtx c s') = (ctx1, .ok tk) →
+    ∀ s, mergeLay c.ctx.lay c.ctx.pos.pos ctx1.pos.pos = some s → P s
+
 structure PInv (P : Slice → Prop) (c : Cfg) : Prop where
   trees : ∀ t ∈ c.res, t.AllLay P
   ahead : ∀ s, c.ctx.lay = some s → P s
 
 theorem step_pinv (env : Env) (P : Slice → Prop) (nt : Ctx → Ctx × Outcome Tok) (c c' : Cfg)
-    (hnt : NtP P nt) (hinv : PInv P c) (hstep : step env nt c = .next c') : PInv P c' := by
+    (hnt : NtP P nt) (hrelex : RelexP P nt c) (hinv : PInv P c) (hstep : step env nt c = .next c') :
+    PInv P c' := by
   cases step_next_inv env nt c c' hstep with
   | shift state s' acts ctx1 tk htop hcell hnt1 hc' =>
     subst hc'
@@ -58,7 +66,7 @@ theorem step_pinv (env : Env) (P : Slice → Prop) (nt : Ctx → Ctx × Outcome 
     · exact hinv.trees t h
   | reduce state p len fromState s' pr acts ctx1 tk htop hcell hlen hfrom hpr hgoto hrlen hnt1 hc' =>
     subst hc'
-    refine ⟨?_, hinv.ahead⟩
+    refine ⟨?_, hrelex s' ctx1 tk hnt1⟩
     intro t ht
     rcases List.mem_cons.mp ht with h | h
     · subst h
@@ -75,19 +83,23 @@ theorem step_pinv (env : Env) (P : Slice → Prop) (nt : Ctx → Ctx × Outcome 
       · simp at hs
     · exact hinv.trees t (List.mem_of_mem_drop h)
 
-theorem runLoop_pinv (env : Env) (P : Slice → Prop) (nt : Ctx → Ctx × Outcome Tok) (hnt : NtP P nt) :
-    ∀ (fuel : Nat) (c : Cfg) (ctx : Ctx) (r : ParseResult), PInv P c →
+/-- `J` is an auxiliary invariant of the loop from which the re-lex clause follows -/
+theorem runLoop_pinv (env : Env) (P : Slice → Prop) (nt : Ctx → Ctx × Outcome Tok) (hnt : NtP P nt)
+    (J : Cfg → Prop) (hJ : ∀ c c', J c → step env nt c = .next c' → J c')
+    (hrelex : ∀ c, J c → (∀ s, c.ctx.lay = some s → P s) → RelexP P nt c) :
+    ∀ (fuel : Nat) (c : Cfg) (ctx : Ctx) (r : ParseResult), J c → PInv P c →
       runLoop env nt fuel c = (ctx, .ok r) →
       r.tree.AllLay P ∧ ∀ s, ctx.lay = some s → P s := by
   intro fuel
   induction fuel with
-  | zero => intro c ctx r _ h; simp [runLoop] at h
+  | zero => intro c ctx r _ _ h; simp [runLoop] at h
   | succ n ih =>
-    intro c ctx r hinv h
+    intro c ctx r hj hinv h
     unfold runLoop at h
     split at h
     · rename_i c' hstep
-      exact ih c' ctx r (step_pinv env P nt c c' hnt hinv hstep) h
+      exact ih c' ctx r (hJ c c' hj hstep)
+        (step_pinv env P nt c c' hnt (hrelex c hj hinv.ahead) hinv hstep) h
     · rename_i ctx' r' hstep
       injection h with h1 h2
       injection h2 with h2
@@ -99,18 +111,6 @@ theorem runLoop_pinv (env : Env) (P : Slice → Prop) (nt : Ctx → Ctx × Outco
       injection h with _ h2
       subst h2
       exact absurd rfl (step_stop_not_ok env nt c ctx' _ hstep r)
-
-theorem parse_pinv (env : Env) (P : Slice → Prop) (pp : Bool) (fuel : Nat)
-    (hnt : NtP P (nextTokenMain env pp fuel)) (ctx : Ctx) (r : ParseResult)
-    (h : parse env pp fuel = (ctx, .ok r)) :
-    r.tree.AllLay P ∧ ∀ s, ctx.lay = some s → P s := by
-  unfold parse parseWith at h
-  simp only at h
-  split at h
-  · rename_i ctx1 tk hnt1
-    refine runLoop_pinv env P _ hnt fuel _ ctx r ⟨by simp, ?_⟩ h
-    exact hnt _ ctx1 tk rfl rfl hnt1
-  all_goals (injection h with _ h2; simp at h2)
 
 /-! ## Default whitespace skipping -/
 
@@ -150,83 +150,333 @@ theorem ntP_ws (env : Env) (hc : env.custom = none) (hl : env.t.layoutState = no
       exact wsPrefix_wsBytes _ _
     · simp at hs
 
-/-- **(B i)** default whitespace skipping: every stored layout is whitespace -/
+/-- **(B i)** default whitespace skipping: every stored layout is whitespace.  (Re-lexing after a
+    reduce never moves here — `Stable` of `Roundtrip.lean` — so the merged layout is the old one.) -/
 theorem parse_layout_is_ws (env : Env) (hc : env.custom = none) (hl : env.t.layoutState = none)
+    (hr : RecogOk env) (hns : NoShiftStop env.t)
     (pp : Bool) (fuel : Nat) (ctx : Ctx) (r : ParseResult) (h : parse env pp fuel = (ctx, .ok r)) :
-    r.tree.AllLay (WsSlice env.input) ∧ ∀ s, ctx.lay = some s → WsSlice env.input s :=
-  parse_pinv env _ pp fuel (ntP_ws env hc hl pp fuel) ctx r h
+    r.tree.AllLay (WsSlice env.input) ∧ ∀ s, ctx.lay = some s → WsSlice env.input s := by
+  have hntl : NtLay env (nextTokenMain env pp fuel) := by
+    intro ctx ctx' o hn
+    rw [nextTokenMain_eq_base env hl] at hn
+    exact ntLay_base env hc hr pp ctx ctx' o hn
+  have hntp := ntP_ws env hc hl pp fuel
+  unfold parse parseWith at h
+  simp only at h
+  split at h
+  · rename_i ctx1 tk hnt1
+    obtain ⟨hpos1, hlay1, hst1, htok1⟩ := hntl _ ctx1 _ hnt1
+    refine runLoop_pinv env _ _ hntp
+      (fun c => c.stack.length = c.res.length + 1 ∧ RInv env c)
+      (fun c c' hj hstep => ?_) (fun c hj hah => ?_) fuel _ ctx r ⟨by simp, ?_⟩
+      ⟨by simp, hntp _ ctx1 tk rfl rfl hnt1⟩ h
+    · -- the auxiliary invariant is preserved
+      refine ⟨?_, step_roundtrip env _ c c' hntl hns hj.1 hj.2 hstep⟩
+      cases step_next_inv env _ c c' hstep with
+      | shift state s' acts ctx1 tk htop hcell hnt1 hc' => subst hc'; simp [hj.1]
+      | reduce state p len fromState s' pr acts ctx1 tk htop hcell hlen hfrom hpr hgoto hrlen hnt1 hc' =>
+        subst hc'; simp; omega
+    · -- re-lexing does not move
+      intro s' ctx1 tk hnt1 s hs
+      obtain ⟨hpos1, _, _, _⟩ := hntl _ ctx1 _ hnt1
+      have hn0 : wsN env (reduceCtx c s') = 0 := by
+        unfold wsN
+        exact stable_n_zero env c.ctx hj.2.stable
+      have hp : ctx1.pos.pos = c.ctx.pos.pos := by rw [hpos1, hn0]; rfl
+      rw [hp, mergeLay_same] at hs
+      exact hah s hs
+    · -- the invariant holds initially
+      refine ⟨by simp [flatRes, endOf], by simp [endOf], ?_, htok1 tk rfl, hst1⟩
+      unfold LayOk
+      simp only [endOf]
+      rw [hlay1]
+      unfold layAfter
+      have hp0 : ({} : Ctx).pos.pos = 0 := rfl
+      have hps : Pos.start.pos = 0 := rfl
+      rw [hp0] at hpos1
+      cases hsk : env.skipWs with
+      | false =>
+        have hn0 : wsN env {} = 0 := by unfold wsN; simp [hsk]
+        simp only [Bool.false_eq_true, ↓reduceIte]
+        show (match (none : Option Slice) with
+          | some (o, l) => o = 0 ∧ o + l = ctx1.pos.pos
+          | none => ctx1.pos.pos = 0)
+        simp only
+        omega
+      | true =>
+        simp only [↓reduceIte]
+        by_cases hn : wsN env {} > 0
+        · simp only [hn, ↓reduceIte]
+          exact ⟨hp0, by omega⟩
+        · simp only [hn, ↓reduceIte]
+          omega
+  all_goals (injection h with _ h2; simp at h2)
 
 /-! ## Layout rule -/
 
-/-- the slice is tiled by adjacent recognizer matches (`toks`, most recent first) whose kinds are the
+/-- `[a, b)` is tiled by adjacent recognizer matches (`toks`, most recent first) whose kinds are the
     yield of a derivation tree of the symbol `lsym` -/
-def LayoutSentence (env : Env) (lsym : Nat) (s : Slice) : Prop :=
+def LaySentence (env : Env) (lsym : Nat) (a b : Nat) : Prop :=
   ∃ (tr : Tree) (toks : List Tok), tr.Valid env.g lsym ∧ tr.yield = (toks.map (·.kind)).reverse ∧
-    HChain env toks s.1 (s.1 + s.2)
+    HChain env toks a b
 
-theorem ntP_layout (env : Env) (hc : env.custom = none) (hsk : env.skipWs = false) (hr : RecogOk env)
-    (hns : NoShiftStop env.t) (ls : Nat) (hl : env.t.layoutState = some ls)
+/-- `[a, b)` is a concatenation of one or more sentences -/
+inductive LayoutSentences (env : Env) (lsym : Nat) : Nat → Nat → Prop where
+  | one (a b : Nat) : LaySentence env lsym a b → LayoutSentences env lsym a b
+  | app (a m b : Nat) : LayoutSentences env lsym a m → LaySentence env lsym m b → LayoutSentences env lsym a b
+
+/-- the stored slice is a concatenation of sentences of `lsym` -/
+def LaySlice (env : Env) (lsym : Nat) (s : Slice) : Prop := LayoutSentences env lsym s.1 (s.1 + s.2)
+
+/-- token history of the layout sub-parse: a chain of adjacent matches from the start offset, from ANY
+    starting context (unlike `LInv` this does not look at spans) -/
+structure HInv (env : Env) (P0 : Nat) (c : Cfg) : Prop where
+  hist : HChain env c.hist P0 c.ctx.pos.pos
+  tok : TokRec env c.ctx c.tok
+
+theorem step_hinv (env : Env) (hc : env.custom = none) (hsk : env.skipWs = false) (hr : RecogOk env)
+    (hns : NoShiftStop env.t) (P0 : Nat) (c c' : Cfg) (hinv : HInv env P0 c)
+    (hstep : step env (nextTokenBase env true) c = .next c') : HInv env P0 c' := by
+  cases step_next_inv env _ c c' hstep with
+  | shift state s' acts ctx1 tk htop hcell hnt1 hc' =>
+    have hk : c.tok.kind ≠ 0 := by
+      intro h0; apply hns state s'; rw [← h0, hcell]; simp
+    obtain ⟨hv1, hrec⟩ : c.tok.val.1 = c.ctx.pos.pos ∧ env.recog c.tok.kind c.tok.val.1 = some c.tok.val.2 := by
+      rcases hinv.tok with h | h
+      · exact absurd h hk
+      · exact h
+    have hv2 := hr _ _ _ hrec
+    have hctx1 := ntBase_ctx env hc hsk true _ _ _ hnt1
+    subst hctx1
+    have hnp : (shiftCtx env c s').pos.pos = c.ctx.pos.pos + c.tok.val.2 := by
+      show (posAfter (sliceOf env.input c.tok.val) c.ctx.pos).pos = _
+      rw [posAfter_pos]
+      have : c.tok.val = (c.tok.val.1, c.tok.val.2) := rfl
+      rw [this, sliceOf_length _ _ _ hv2]
+    subst hc'
+    refine ⟨⟨by rw [hnp, hv1], hrec, ?_⟩, ntBase_tokRec env hc hsk _ _ tk hnt1⟩
+    rw [hv1]; exact hinv.hist
+  | reduce state p len fromState s' pr acts ctx1 tk htop hcell hlen hfrom hpr hgoto hrlen hnt1 hc' =>
+    have hctx1 := ntBase_ctx env hc hsk true _ _ _ hnt1
+    subst hctx1
+    subst hc'
+    exact ⟨hinv.hist, ntBase_tokRec env hc hsk (reduceCtx c s') _ tk hnt1⟩
+
+theorem runLoop_hinv (env : Env) (hc : env.custom = none) (hsk : env.skipWs = false) (hr : RecogOk env)
+    (hns : NoShiftStop env.t) (P0 : Nat) :
+    ∀ (fuel : Nat) (c : Cfg) (ctx : Ctx) (r : ParseResult), HInv env P0 c →
+      runLoop env (nextTokenBase env true) fuel c = (ctx, .ok r) → HChain env r.hist P0 ctx.pos.pos := by
+  intro fuel
+  induction fuel with
+  | zero => intro c ctx r _ h; simp [runLoop] at h
+  | succ n ih =>
+    intro c ctx r hinv h
+    unfold runLoop at h
+    split at h
+    · rename_i c' hstep
+      exact ih c' ctx r (step_hinv env hc hsk hr hns P0 c c' hinv hstep) h
+    · rename_i ctx' r' hstep
+      injection h with h1 h2
+      injection h2 with h2
+      subst h1 h2
+      obtain ⟨_, _, _, _, _, hctx, _, _, hhist⟩ := step_done_inv env _ c ctx' r' hstep
+      rw [hctx, hhist]; exact hinv.hist
+    · rename_i ctx' o hstep
+      injection h with _ h2
+      subst h2
+      exact absurd rfl (step_stop_not_ok env _ c ctx' _ hstep r)
+
+/-- **Whatever an accepted layout parse consumed is a sentence of the Layout symbol** (from any
+    starting context) -/
+theorem layoutParse_sentence (env : Env) (hc : env.custom = none) (hsk : env.skipWs = false)
+    (hr : RecogOk env) (hns : NoShiftStop env.t) (autos : List Auto)
+    (hs : Structural env.g env.t autos) (au : Auto) (hin : au ∈ autos) (ls : Nat)
+    (hstart : ls = au.start) (ctx : Ctx) (fuel : Nat) (cx : Ctx) (pr : ParseResult)
+    (h : layoutParse env ls ctx fuel = (cx, .ok pr)) :
+    LaySentence env au.sym ctx.pos.pos cx.pos.pos := by
+  obtain ⟨hv, hy⟩ := parseWith_sound env _ autos hs au hin ls hstart _ fuel cx pr h
+  refine ⟨pr.tree, pr.hist, hv, hy, ?_⟩
+  unfold layoutParse parseWith at h
+  simp only at h
+  split at h
+  · rename_i ctx1 tk hnt1
+    have hctx1 := ntBase_ctx env hc hsk true _ _ _ hnt1
+    subst hctx1
+    exact runLoop_hinv env hc hsk hr hns ctx.pos.pos fuel _ cx pr
+      ⟨by simp [HChain], ntBase_tokRec env hc hsk _ _ tk hnt1⟩ h
+  all_goals (injection h with _ h2; simp at h2)
+
+/-- what `nextTokenMain` of a Layout table does to the position: nothing, or it skips one sentence -/
+theorem ntMain_skips_sentence (env : Env) (hc : env.custom = none) (hsk : env.skipWs = false)
+    (hr : RecogOk env) (hns : NoShiftStop env.t) (ls : Nat) (hl : env.t.layoutState = some ls)
     (hs : Structural env.g env.t (autosOf env.g env.t)) (au : Auto) (hin : au ∈ autosOf env.g env.t)
-    (hstart : ls = au.start) (hsym : env.g.nterms ≤ au.sym) (pp : Bool) (fuel : Nat) :
-    NtP (LayoutSentence env au.sym) (nextTokenMain env pp fuel) := by
-  intro ctx ctx' tk hlay hE hn s hs'
+    (hstart : ls = au.start) (pp : Bool) (fuel : Nat) (ctx ctx' : Ctx) (tk : Tok)
+    (hn : nextTokenMain env pp fuel ctx = (ctx', .ok tk)) :
+    ctx'.pos.pos = ctx.pos.pos ∨ LaySentence env au.sym ctx.pos.pos ctx'.pos.pos := by
   unfold nextTokenMain lexNext at hn
   rw [hc, hsk] at hn
   simp only [Bool.false_eq_true, ↓reduceIte] at hn
   split at hn
   · injection hn with h1 _
-    rw [← h1, hlay] at hs'; simp at hs'
+    rw [← h1]; exact Or.inl rfl
   · rw [hl] at hn
     simp only at hn
     generalize hlp : layoutParse env ls ctx fuel = lp at hn
     obtain ⟨cx, r⟩ := lp
-    have hcl := layoutParse_lay_none env hc hsk ls ctx fuel cx r hlay hlp
     simp only at hn
+    have hback : ∀ (c0 : Ctx), c0.pos = ctx.pos → noToken env pp c0 = (ctx', .ok tk) →
+        ctx'.pos.pos = ctx.pos.pos ∨ LaySentence env au.sym ctx.pos.pos ctx'.pos.pos := by
+      intro c0 hp0 hn0
+      obtain ⟨hctx', _⟩ := noToken_inv env pp _ _ _ hn0
+      subst hctx'
+      exact Or.inl (by rw [hp0])
     split at hn
     · rename_i pr
       split at hn
-      · rename_i off len hslice
-        split at hn
+      · split at hn
         · have hctx' := ntBase_ctx env hc hsk pp _ _ _ hn
           subst hctx'
-          simp only at hs'
-          injection hs' with hs'
-          subst hs'
-          obtain ⟨hsl, hle, hch, hv, hy⟩ := layoutParse_slice env hc hsk hr hns _ hs au hin ls hstart hsym
-            ctx hE fuel cx pr hlp
-          rw [hslice] at hsl
-          injection hsl with hsl
-          injection hsl with ho hlen'
-          subst ho hlen'
-          refine ⟨pr.tree, pr.hist, hv, hy, ?_⟩
-          simp only
-          have : ctx.pos.pos + (cx.pos.pos - ctx.pos.pos) = cx.pos.pos := by omega
-          rw [this]; exact hch
-        · obtain ⟨hctx', _⟩ := noToken_inv env pp _ _ _ hn
-          subst hctx'
-          simp only [hcl] at hs'
-          simp at hs'
-      · obtain ⟨hctx', _⟩ := noToken_inv env pp _ _ _ hn
-        subst hctx'
-        simp only [hcl] at hs'
-        simp at hs'
-    · obtain ⟨hctx', _⟩ := noToken_inv env pp _ _ _ hn
-      subst hctx'
-      simp only [hcl] at hs'
-      simp at hs'
+          exact Or.inr (layoutParse_sentence env hc hsk hr hns _ hs au hin ls hstart ctx fuel cx pr hlp)
+        · exact hback { cx with state := ctx.state, span := ctx.span, pos := ctx.pos } rfl hn
+      · exact hback { cx with state := ctx.state, span := ctx.span, pos := ctx.pos } rfl hn
+    · exact hback { cx with state := ctx.state, span := ctx.span, pos := ctx.pos } rfl hn
     · injection hn with _ h2; simp at h2
     · injection hn with _ h2; simp at h2
 
-/-- **(B ii)** Layout rule: every stored layout is a sentence of the Layout symbol, tiled by
-    adjacent tokens -/
+theorem ntP_layout (env : Env) (hc : env.custom = none) (hsk : env.skipWs = false) (hr : RecogOk env)
+    (hns : NoShiftStop env.t) (ls : Nat) (hl : env.t.layoutState = some ls)
+    (hs : Structural env.g env.t (autosOf env.g env.t)) (au : Auto) (hin : au ∈ autosOf env.g env.t)
+    (hstart : ls = au.start) (hsym : env.g.nterms ≤ au.sym) (pp : Bool) (fuel : Nat) :
+    NtP (LaySlice env au.sym) (nextTokenMain env pp fuel) := by
+  intro ctx ctx' tk hlay hE hn s hs'
+  -- the layout ahead afterwards is exactly what was skipped …
+  obtain ⟨_, hmono, hlo⟩ := ntG_main env hc hsk hr hns ls hl hs au hin hstart hsym fuel pp ctx ctx' tk hn
+  have hlayok := hlo hlay hE
+  unfold LayOk at hlayok
+  rw [hs'] at hlayok
+  obtain ⟨o, l⟩ := s
+  simp only at hlayok
+  obtain ⟨ho, hol⟩ := hlayok
+  -- … and what was skipped is nothing or one sentence
+  rcases ntMain_skips_sentence env hc hsk hr hns ls hl hs au hin hstart pp fuel ctx ctx' tk hn with h | h
+  · -- nothing skipped, yet a layout is recorded: it is empty; impossible unless it is a sentence anyway
+    exfalso
+    -- a recorded layout comes only from the branch that skipped a non-empty slice
+    unfold nextTokenMain lexNext at hn
+    rw [hc, hsk] at hn
+    simp only [Bool.false_eq_true, ↓reduceIte] at hn
+    split at hn
+    · injection hn with h1 _
+      rw [← h1, hlay] at hs'; simp at hs'
+    · rw [hl] at hn
+      simp only at hn
+      generalize hlp : layoutParse env ls ctx fuel = lp at hn
+      obtain ⟨cx, r⟩ := lp
+      have hcl := layoutParse_lay_none env hc hsk ls ctx fuel cx r hlay hlp
+      simp only at hn
+      have hback : ∀ (c0 : Ctx), c0.lay = cx.lay → noToken env pp c0 = (ctx', .ok tk) → False := by
+        intro c0 hl0 hn0
+        obtain ⟨hctx', _⟩ := noToken_inv env pp _ _ _ hn0
+        subst hctx'
+        rw [hl0, hcl] at hs'; simp at hs'
+      split at hn
+      · split at hn
+        · rename_i off len hslice
+          split at hn
+          · rename_i hlen
+            have hctx' := ntBase_ctx env hc hsk pp _ _ _ hn
+            subst hctx'
+            simp only at hs' h hol
+            injection hs' with hs'
+            injection hs' with h1 h2
+            omega
+          · exact hback { cx with state := ctx.state, span := ctx.span, pos := ctx.pos } rfl hn
+        · exact hback { cx with state := ctx.state, span := ctx.span, pos := ctx.pos } rfl hn
+      · exact hback { cx with state := ctx.state, span := ctx.span, pos := ctx.pos } rfl hn
+      · injection hn with _ h2; simp at h2
+      · injection hn with _ h2; simp at h2
+  · refine .one _ _ ?_
+    simp only
+    subst ho
+    rw [hol]
+    exact h
+
+/-- re-lexing after a reduce: the merged layout is the old concatenation, or it gets one more sentence -/
+theorem relexP_layout (env : Env) (hc : env.custom = none) (hsk : env.skipWs = false) (hr : RecogOk env)
+    (hns : NoShiftStop env.t) (ls : Nat) (hl : env.t.layoutState = some ls)
+    (hs : Structural env.g env.t (autosOf env.g env.t)) (au : Auto) (hin : au ∈ autosOf env.g env.t)
+    (hstart : ls = au.start) (hsym : env.g.nterms ≤ au.sym) (pp : Bool) (fuel : Nat) (c : Cfg)
+    (hg : GInv env c) (hah : ∀ s, c.ctx.lay = some s → LaySlice env au.sym s) :
+    RelexP (LaySlice env au.sym) (nextTokenMain env pp fuel) c := by
+  intro s' ctx1 tk hnt1 s hs'
+  obtain ⟨_, hmono, _⟩ := ntG_main env hc hsk hr hns ls hl hs au hin hstart hsym fuel pp _ ctx1 tk hnt1
+  have hmono' : c.ctx.pos.pos ≤ ctx1.pos.pos := hmono
+  have hE := layOk_le hg.lay
+  by_cases hgt : ctx1.pos.pos > c.ctx.pos.pos
+  · -- more layout skipped: one more sentence
+    have hsent : LaySentence env au.sym c.ctx.pos.pos ctx1.pos.pos := by
+      rcases ntMain_skips_sentence env hc hsk hr hns ls hl hs au hin hstart pp fuel _ ctx1 tk hnt1 with h | h
+      · have : ctx1.pos.pos = c.ctx.pos.pos := h
+        omega
+      · exact h
+    unfold mergeLay at hs'
+    rw [if_pos hgt] at hs'
+    injection hs' with hs'
+    subst hs'
+    unfold LaySlice
+    simp only
+    have hlay := hg.lay
+    unfold LayOk at hlay
+    cases hcl : c.ctx.lay with
+    | none =>
+      rw [hcl] at hlay
+      simp only at hlay
+      simp only [layLen, Nat.sub_zero]
+      have : c.ctx.pos.pos + (ctx1.pos.pos - c.ctx.pos.pos) = ctx1.pos.pos := by omega
+      rw [this]
+      exact .one _ _ hsent
+    | some ol =>
+      obtain ⟨o, l⟩ := ol
+      rw [hcl] at hlay
+      simp only at hlay
+      obtain ⟨ho, hol⟩ := hlay
+      simp only [layLen]
+      have h1 : c.ctx.pos.pos - l = o := by omega
+      have h2 : o + (ctx1.pos.pos - o) = ctx1.pos.pos := by omega
+      rw [h1, h2]
+      have hold := hah (o, l) hcl
+      unfold LaySlice at hold
+      simp only at hold
+      rw [hol] at hold
+      exact .app _ _ _ hold hsent
+  · unfold mergeLay at hs'
+    rw [if_neg hgt] at hs'
+    exact hah s hs'
+
+/-- **(B ii)** Layout rule: every stored layout is a concatenation of sentences of the Layout symbol,
+    each tiled by adjacent tokens -/
 theorem parse_layout_is_sentence (env : Env) (hc : env.custom = none) (hsk : env.skipWs = false)
     (hr : RecogOk env) (hns : NoShiftStop env.t) (ls : Nat) (hl : env.t.layoutState = some ls)
     (hs : Structural env.g env.t (autosOf env.g env.t)) (hau : LayoutCert.autoOk env.g env.t ls = true)
     (pp : Bool) (fuel : Nat) (ctx : Ctx) (r : ParseResult) (h : parse env pp fuel = (ctx, .ok r)) :
     ∃ au ∈ autosOf env.g env.t, au.start = ls ∧ env.g.nterms ≤ au.sym ∧
-      r.tree.AllLay (LayoutSentence env au.sym) ∧ ∀ s, ctx.lay = some s → LayoutSentence env au.sym s := by
+      r.tree.AllLay (LaySlice env au.sym) ∧ ∀ s, ctx.lay = some s → LaySlice env au.sym s := by
   obtain ⟨au, hin, hstart, hsym⟩ := autoOk_sound env.g env.t ls hau
-  exact ⟨au, hin, hstart.symm, hsym,
-    parse_pinv env _ pp fuel (ntP_layout env hc hsk hr hns ls hl hs au hin hstart hsym pp fuel) ctx r h⟩
+  refine ⟨au, hin, hstart.symm, hsym, ?_⟩
+  have hntg := ntG_main env hc hsk hr hns ls hl hs au hin hstart hsym fuel pp
+  have hntp := ntP_layout env hc hsk hr hns ls hl hs au hin hstart hsym pp fuel
+  unfold parse parseWith at h
+  simp only at h
+  split at h
+  · rename_i ctx1 tk hnt1
+    obtain ⟨htok1, _, hlay1⟩ := hntg _ ctx1 tk hnt1
+    have hlay := hlay1 rfl rfl
+    refine runLoop_pinv env _ _ hntp (GInv env)
+      (fun c c' hj hstep => step_ginv env _ c c' hntg hns hj hstep)
+      (fun c hj hah => relexP_layout env hc hsk hr hns ls hl hs au hin hstart hsym pp fuel c hj hah)
+      fuel _ ctx r ?_ ⟨by simp, hntp _ ctx1 tk rfl rfl hnt1⟩ h
+    refine ⟨by simp [flatRes, endOf], ?_, htok1⟩
+    simp only [endOf]; exact hlay
+  all_goals (injection h with _ h2; simp at h2)
 
 end Rustemo
